@@ -15,7 +15,7 @@ export PAR_OUT=/tmp/vpar-seeds; rm -rf "$PAR_OUT"
 python3 scripts/par_run.py -j "${PAR_J:-6}" "$jobs" | sort > /tmp/seed-matrix.txt
 miss=0
 while read -r id prop rest; do
-  sed -e 's#/tmp/vpar-[0-9]*/verif/#/verif/#g' "$PAR_OUT/$id.$prop.log" | grep -E '^OK|^VIOLATION|^KNOWN-FINDING|HARNESS-ERROR|^  ' | cut -c1-400 | head -14 > "seeded/$id/detection.txt"
+  sed -e 's#/tmp/vpar-[0-9-]*/verif/#/verif/#g' "$PAR_OUT/$id.$prop.log" | grep -E '^OK|^VIOLATION|^KNOWN-FINDING|HARNESS-ERROR|^  ' | cut -c1-400 | head -14 > "seeded/$id/detection.txt"
   if grep -q '^VIOLATION' "seeded/$id/detection.txt"; then echo "$id $prop DETECTED $(grep -m1 -A1 '^VIOLATION' seeded/$id/detection.txt | tr '\n' ' ' | cut -c1-200)"; else echo "$id $prop MISSED"; miss=1; fi
 done < /tmp/seed-matrix.txt
 rm -rf "$jobs" "$PAR_OUT"
